@@ -317,42 +317,48 @@ def _table(fn: ast.AST, loc: Loc | None = None) -> dict[tuple, str] | None:
             return 'send'
         return None
 
-    def walk(body: list[ast.stmt], env: dict[str, bool]) -> bool:
+    class _Unknown(Exception):
+        pass
+
+    def ev(t: ast.AST, env: dict[str, bool]) -> bool:
+        if isinstance(t, ast.UnaryOp) and isinstance(t.op, ast.Not):
+            return not ev(t.operand, env)
+        if isinstance(t, ast.BoolOp):
+            vals = [ev(v, env) for v in t.values]
+            return all(vals) if isinstance(t.op, ast.And) else any(vals)
+        r = role(t)
+        if r is None:
+            raise _Unknown()
+        return env[r]
+
+    def run_(body: list[ast.stmt], env: dict[str, bool]) -> str | None:
         for st in body:
             if isinstance(st, ast.Return):
-                keys = [(s, h) for s in (True, False) for h in (True, False) if env.get('send', s) == s and env.get('has', h) == h]
-                for k in keys:
-                    out.setdefault(k, norm(st.value))
-                return True
+                v = st.value
+                while isinstance(v, ast.IfExp):
+                    v = v.body if ev(v.test, env) else v.orelse
+                return norm(v) if v is not None else None
             if isinstance(st, ast.If):
-                t = st.test
-                pol = True
-                while isinstance(t, ast.UnaryOp) and isinstance(t.op, ast.Not):
-                    t = t.operand
-                    pol = not pol
-                var = role(t)
-                if var is None:
-                    return False
-                e1 = dict(env)
-                e1[var] = pol
-                e2 = dict(env)
-                e2[var] = not pol
-                done1 = walk(st.body, e1)
-                done2 = walk(st.orelse, e2) if st.orelse else False
-                if done1 and done2:
-                    return True
-                if done1:
-                    env = e2
-                elif done2:
-                    env = e1
+                r = run_(st.body if ev(st.test, env) else st.orelse, env)
+                if r is not None:
+                    return r
                 continue
-            if isinstance(st, (ast.Expr, ast.Assign, ast.AnnAssign)):
+            if isinstance(st, (ast.Expr, ast.Assign, ast.AnnAssign, ast.Pass)):
                 continue
-            return False
-        return False
+            raise _Unknown()
+        return None
 
-    walk(fn.body, {})  # type: ignore[attr-defined]
-    return out if len(out) == 4 else None
+    # the table is read off by running the tree under each of the four cases
+    try:
+        for s_ in (True, False):
+            for h_ in (True, False):
+                r = run_(fn.body, {'send': s_, 'has': h_})  # type: ignore[attr-defined]
+                if r is None:
+                    return None
+                out[(s_, h_)] = r
+    except _Unknown:
+        return None
+    return out
 
 
 def _r4_addpath(model: Model, run: Run, folder: Folder) -> None:
